@@ -1130,7 +1130,34 @@ def _may_be_empty(fnode, S, depth):
 # --------------------------------------------------------------------------------------
 # statement-level inlining of small lexical helpers (so that path rules see `a, b = helper(a, b)` as the helper's
 # own statements)
-def inline_lexical_helpers(fnode, depth=2):
+def project_resolver(p, module, prefix=None):
+    """for inline_lexical_helpers: a call that is not lexically a local def but resolves (imports followed) to a
+    module-level function of the project (optionally only below the package `prefix`) -> its FunctionDef"""
+
+    def resolve(call):
+        r = resolve_callee(p, call, module)
+        if r and r[0] == "func" and r[1].cls is None and r[1].parent is None and isinstance(r[1].node, ast.FunctionDef) and (prefix is None or r[1].module.name.startswith(prefix)):
+            r[1].node._defining_module = r[1].module
+            return r[1].node
+        return None
+
+    return resolve
+
+
+def _mark_home(nodes, h, args=()):
+    """statements copied out of helper `h` that lives in another module: names in them are looked up in that module
+    (the argument expressions substituted into them stay with the caller)"""
+    home = getattr(h, "_defining_module", None)
+    if home is None:
+        return
+    keep = {id(x) for a in args for x in ast.walk(a)}
+    for nb in nodes:
+        for x in ast.walk(nb):
+            if id(x) not in keep and not hasattr(x, "_home_module"):
+                x._home_module = home
+
+
+def inline_lexical_helpers(fnode, depth=2, resolver=None):
     """A structural copy of function `fnode` in which statements of the forms `helper(args)`, `x = helper(args)` and
     `x, y = helper(args)` - helper being a function defined lexically around the statement (enclosing function or
     module) whose body is straight-line code ending in at most one `return` - are replaced by the helper's statements
@@ -1144,7 +1171,7 @@ def inline_lexical_helpers(fnode, depth=2):
         if not body:
             return None
         for st in body[:-1]:
-            if not isinstance(st, (ast.Assign, ast.AugAssign, ast.Expr, ast.For, ast.If)) or any(isinstance(x, (ast.Return, ast.Yield, ast.YieldFrom)) for x in ast.walk(st)):
+            if not isinstance(st, (ast.Assign, ast.AugAssign, ast.Expr, ast.For, ast.If, ast.Assert, ast.Pass)) or any(isinstance(x, (ast.Return, ast.Yield, ast.YieldFrom)) for x in ast.walk(st)):
                 return None
         last = body[-1]
         if isinstance(last, ast.Return):
@@ -1165,7 +1192,7 @@ def inline_lexical_helpers(fnode, depth=2):
             # the return statement - its returns are the returns of this function
             if isinstance(st, ast.Return) and isinstance(st.value, ast.Call) and d > 0:
                 tc = st.value
-                th = _lookup_def(tc)
+                th = _lookup_def(tc) or (resolver(tc) if resolver is not None else None)
                 if th is not None and th is not fnode and not th.decorator_list and not th.args.vararg and not th.args.kwarg and not any(isinstance(a, ast.Starred) for a in tc.args) and not any(k.arg is None for k in tc.keywords) and not any(isinstance(x, (ast.Yield, ast.YieldFrom, ast.Global, ast.Nonlocal)) for x in ast.walk(th)):
                     tparams = [a.arg for a in th.args.posonlyargs + th.args.args + th.args.kwonlyargs]
                     tmap = {}
@@ -1199,7 +1226,9 @@ def inline_lexical_helpers(fnode, depth=2):
                                 self.generic_visit(n)
                                 return n
 
-                        tnew = tpre + [TS().visit(_clone(b)) for b in tbody]
+                        tcl = [_clone(b) for b in tbody]
+                        _mark_home(tcl, th)
+                        tnew = tpre + [TS().visit(b) for b in tcl]
                         if not isinstance(tnew[-1], (ast.Return, ast.Raise)) :
                             tnew.append(ast.Return(value=None))
                         for nb in tnew:
@@ -1215,7 +1244,7 @@ def inline_lexical_helpers(fnode, depth=2):
                             nb._parent = getattr(st, "_parent", None)
                         out += expand_block(tnew, d - 1)
                         continue
-            h = _lookup_def(call) if call is not None and d > 0 else None
+            h = (_lookup_def(call) or (resolver(call) if resolver is not None else None)) if call is not None and d > 0 else None
             sb = straight(h) if h is not None and h is not fnode and not h.decorator_list and not h.args.vararg and not h.args.kwarg else None
             if sb is None or any(isinstance(a, ast.Starred) for a in call.args) or any(k.arg is None for k in call.keywords):
                 # recurse into compound statements
@@ -1258,9 +1287,12 @@ def inline_lexical_helpers(fnode, depth=2):
                         return ast.copy_location(_clone(mapping[n.id]), n)
                     return n
 
-            new = pre + [S().visit(_clone(b)) for b in body]
+            bcl = [_clone(b) for b in body]
+            rcl = _clone(retval) if retval is not None else None
+            _mark_home(bcl + ([rcl] if rcl is not None else []), h)
+            new = pre + [S().visit(b) for b in bcl]
             if isinstance(st, ast.Assign):
-                rv = S().visit(_clone(retval)) if retval is not None else ast.Constant(value=None)
+                rv = S().visit(rcl) if rcl is not None else ast.Constant(value=None)
                 new.append(ast.Assign(targets=[_clone(t) for t in st.targets], value=rv))
             for nb in new:
                 for x in ast.walk(nb):
@@ -1408,3 +1440,50 @@ def selection_identity_tests(p, modules, expand=None):
                     if norm(_unwrap_seq(sel.elt.value)) == norm(whole):
                         hits.append((node, f, norm(whole), norm(sel.generators[0].iter)))
     return n, hits
+
+
+def take_one_sites(fnode):
+    """places where ONE element is taken out of a collection named by a plain variable - which element that is depends on
+    the collection's order when it has several: `S.pop()`, `next(iter(S)[, d])`, `list(S)[0]` / `sorted(S)[-1]`,
+    `(x,) = S` / `[x] = S`.  -> [(node, Name of S, form)]"""
+    out = []
+    for node in walk_no_nested(fnode):
+        sel, form = None, None
+        if isinstance(node, ast.Call) and isinstance(node.func, ast.Name) and node.func.id == "next" and node.args and isinstance(node.args[0], ast.Call) and isinstance(node.args[0].func, ast.Name) and node.args[0].func.id == "iter" and node.args[0].args:
+            sel, form = node.args[0].args[0], "next(iter())"
+        elif isinstance(node, ast.Call) and isinstance(node.func, ast.Attribute) and node.func.attr == "pop" and not node.args and not node.keywords:
+            sel, form = node.func.value, "pop()"
+        elif isinstance(node, ast.Subscript) and isinstance(node.ctx, ast.Load) and isinstance(node.slice, ast.Constant) and node.slice.value in (0, -1) and isinstance(node.value, ast.Call) and isinstance(node.value.func, ast.Name) and node.value.func.id in ("list", "tuple", "sorted") and node.value.args:
+            sel, form = node.value.args[0], "list()[0]"
+        elif isinstance(node, ast.Assign) and len(node.targets) == 1 and isinstance(node.targets[0], (ast.Tuple, ast.List)) and len(node.targets[0].elts) == 1 and isinstance(node.value, ast.Name):
+            sel, form = node.value, "(x,) = S"
+        # the values of a dict: `(x,) = D.values()`, `next(iter(D.values()))`
+        if isinstance(sel, ast.Call) and isinstance(sel.func, ast.Attribute) and sel.func.attr == "values" and not sel.args and isinstance(sel.func.value, ast.Name):
+            sel, form = sel.func.value, form + " over .values()"
+        elif isinstance(node, ast.Assign) and len(node.targets) == 1 and isinstance(node.targets[0], (ast.Tuple, ast.List)) and len(node.targets[0].elts) == 1 and isinstance(node.value, ast.Call) and isinstance(node.value.func, ast.Attribute) and node.value.func.attr == "values" and not node.value.args and isinstance(node.value.func.value, ast.Name):
+            sel, form = node.value.func.value, "(x,) = D.values()"
+        if isinstance(sel, ast.Name):
+            out.append((node, sel, form))
+    return out
+
+
+def expand_pure_calls(p, module, expr, depth=2):
+    """a detached copy of `expr` in which calls of one-expression project functions are written out (see
+    expand_pure_call), `depth` levels deep: for rules that read what an expression is made of"""
+    from sa.canon import _copy
+
+    class X(ast.NodeTransformer):
+        def __init__(self, d):
+            self.d = d
+
+        def visit_Call(self, c):
+            self.generic_visit(c)
+            if self.d <= 0:
+                return c
+            e = expand_pure_call(p, module, c)
+            if e is None:
+                return c
+            r = resolve_callee(p, c, module)
+            return X(self.d - 1).visit(e) if r else e
+
+    return X(depth).visit(_copy(expr))
